@@ -25,7 +25,9 @@ def value_for(rng, e, fmt=None):
     if e.external_codes:
         ext = e.root.ext_codes.codes.get(e.external_codes)
         if ext and ext['codes']:
-            return rng.choice(ext['codes'][:50])
+            good = [c for c in ext['codes'][:80] if c == c.strip() and mn <= len(c) <= mx]
+            if good:
+                return rng.choice(good)
     if e.data_ele == '1251':
         # must fit one of the formats the preceding 1250 element ALLOWS (whether or not that element is present)
         sib = [c for c in e.parent.children if getattr(c, 'data_ele', None) == '1250' and c.seq < e.seq]
